@@ -842,6 +842,10 @@ class TunnelCommunity(Community):
         if self.request_cache.has(CreatedRequestCache, payload.circuit_id):
             self.logger.warning("Already have a request for circuit %d", payload.circuit_id)
             return
+        if (payload.circuit_id in self.circuits or payload.circuit_id in self.relay_from_to
+                or payload.circuit_id in self.exit_sockets):
+            self.logger.warning("Circuit id %d is already in use", payload.circuit_id)
+            return
 
         result = await self.should_join_circuit(payload, source_address)
         if result:
